@@ -228,6 +228,41 @@ def rule_r1(rep, program: Program):
         # ---- non-negativity of the remainder in the fallback branch
         if window_loop_var is not None:
             _remainder_nonneg(r, k, f, n_warm)
+    # stages are returned in a dict keyed by label: two stages must never share a key (a later one
+    # would silently replace the earlier, and its iterations disappear from the schedule)
+    for k in program.subclasses("Stager", concrete_only=True):
+        f = k.resolve("stages")
+        if f is None:
+            continue
+        const_keys, loop_keys = [], []
+        parents = {}
+        for n in ast.walk(f.node):
+            for ch in ast.iter_child_nodes(n):
+                parents[ch] = n
+        for n in ast.walk(f.node):
+            if isinstance(n, ast.Assign) and len(n.targets) == 1 and isinstance(n.targets[0], ast.Subscript) and norm(n.targets[0].value) in ("sampling_stages", "stages"):
+                key = n.targets[0].slice
+                loop = None
+                cur = n
+                while cur in parents:
+                    cur = parents[cur]
+                    if isinstance(cur, (ast.For, ast.While)):
+                        loop = cur
+                        break
+                (loop_keys if loop is not None else const_keys).append((n, key, loop))
+        r.inst({"stager": k.name, "stage keys": [norm(x[1])[:40] for x in const_keys + loop_keys]})
+        texts = [norm(x[1]) for x in const_keys]
+        if len(set(texts)) != len(texts) or not all(isinstance(x[1], ast.Constant) for x in const_keys):
+            r.violate(PROP, f"{k.name}.stages:duplicate-stage-key", "two stages outside the window loop are stored under the same / a computed key", node=f.node, file=f.file)
+        for n, key, loop in loop_keys:
+            idx = set()
+            if isinstance(loop, ast.For) and isinstance(loop.iter, ast.Call) and norm(loop.iter.func) == "enumerate" and isinstance(loop.target, ast.Tuple) and isinstance(loop.target.elts[0], ast.Name):
+                idx = {loop.target.elts[0].id}
+            elif isinstance(loop, ast.For) and isinstance(loop.iter, ast.Call) and norm(loop.iter.func) == "range" and isinstance(loop.target, ast.Name):
+                idx = {loop.target.id}
+            used = {x.id for x in ast.walk(key) if isinstance(x, ast.Name)}
+            if not (idx & used):
+                r.violate(PROP, f"{k.name}.stages:window-key-not-unique:{norm(key)[:40]}", f"the stages created in the window loop are stored under the key `{norm(key)}`, which does not contain the loop's running index: two windows with the same {sorted(used) or 'label'} share a key, the later replaces the earlier in the returned dict, and the warm-up stages no longer add up to the requested count", node=n, file=f.file)
     return r
 
 
